@@ -79,7 +79,7 @@ for pid in sorted(checks):
       "quick_cmd": "./check %s quick" % pid,
       "thorough_cmd": "./check %s thorough" % pid,
       "evidence_file": "/verif/evidence/%s.json" % pid,
-      "replay_cmd_template": "cat {path}   # the replay file holds the operation list / schedule / input and the expected-vs-observed detail; ./check %s quick re-derives it deterministically" % pid,
+      "replay_cmd_template": "./check %s --replay {path}" % pid,
       "engine": "vcheck (harness/src/checks)",
       "level_claimed": {"category": lvl, "text": text, "design_ref": "DESIGN.md section " + ref},
       "level_note": note,
